@@ -42,6 +42,13 @@ struct ParseRecord { // the jansson parse call during which an injected failure 
 	std::string entry;
 };
 
+struct DumpRecord { // the json_dumps call during which an injected failure fell
+	bool valid = false;
+	std::string text; // what the same dump returns without a fault
+	size_t flags = 0;
+	uint64_t k_rel = 0;
+};
+
 struct SimAlloc {
 	bool installed = false;
 	bool thread_mode = false; // C18: only atomic counters, no side table
@@ -61,6 +68,13 @@ struct SimAlloc {
 	const char *parse_entry = "";
 	ParseRecord last_parse_fault;
 	uint64_t fired_in_parse = 0;
+	// dump tracking (json_dumps)
+	int in_dump = 0;
+	uint64_t dump_reqs = 0;
+	std::string dump_text;
+	bool dump_text_valid = false;
+	size_t dump_flags = 0;
+	DumpRecord last_dump_fault;
 
 	uint64_t live_blocks() const;
 	uint64_t live_bytes() const;
